@@ -9,7 +9,8 @@
    its atomic number, 1 <= A, Z <= A, |weight - A| <= 1/10. *)
 Require Import Cherab.Common.Qx.
 From Coq Require Import String Qabs.
-Require Import Cherab.Model.C19_Registry Cherab.Proofs.C19_Registry.
+From Coq Require Import Sorting.Sorted Permutation.
+Require Import Cherab.Model.C19_Registry Cherab.Proofs.C19_Registry Cherab.Proofs.C19_Deepen.
 Local Open Scope Z_scope.
 
 (* every element is found by its name, its symbol and its atomic number (as a string in any letter
@@ -192,6 +193,71 @@ Theorem C19_wf_key_clauses_necessary :
       pairwise_disjoint i_name isotope_keys (isotopes r) = true).
 Proof. intros r. split; apply lookups_imply_disjoint. Qed.
 Print Assumptions C19_wf_key_clauses_necessary.
+
+(* ---- second layer: facts that need NO well-formedness -------------------------------------------------- *)
+(* the loop of the index builders refines its specification, for every list of objects and every key:
+   the object found under k is the last object, in iteration order, that writes k *)
+Theorem C19_index_builders_refine_spec :
+  forall (A : Type) (keys : A -> list string) (l : list A) (k : string),
+  idx_get (build_index keys l) k = last_with keys k l.
+Proof. exact @build_index_spec. Qed.
+Print Assumptions C19_index_builders_refine_spec.
+
+(* running the builders again on top of the dictionaries they have filled changes no lookup *)
+Theorem C19_rebuilding_indices_is_idempotent :
+  forall (A : Type) (keys : A -> list string) (l : list A) (k : string),
+  idx_get (fold_left (add_keys keys) l (build_index keys l)) k = idx_get (build_index keys l) k.
+Proof. exact @rebuild_idempotent. Qed.
+Print Assumptions C19_rebuilding_indices_is_idempotent.
+
+(* "all letter cases", for EVERY registry: a string lookup depends on the lower-cased string only *)
+Theorem C19_lookups_are_case_blind :
+  forall r s s', lower s = lower s' ->
+  lookup_element r (VStr s) = lookup_element r (VStr s')
+  /\ (forall n, lookup_isotope r (VStr s) n = lookup_isotope r (VStr s') n)
+  /\ lookup_element r (VStr (lower s)) = lookup_element r (VStr s).
+Proof.
+  intros r s s' H. split; [|split].
+  - apply lookup_element_case_blind; exact H.
+  - intros n. apply lookup_isotope_case_blind; exact H.
+  - apply lookup_element_lower.
+Qed.
+Print Assumptions C19_lookups_are_case_blind.
+
+(* == holds exactly when every compared field agrees (weights as doubles, i.e. as exact rationals):
+   a species that differs in any single field is unequal, for all values of the fields *)
+Theorem C19_eq_characterised_by_fields :
+  (forall a b, element_eq a b = true <->
+     e_name a = e_name b /\ e_symbol a = e_symbol b /\ e_Z a = e_Z b /\ (e_weight a == e_weight b)%Q)
+  /\ (forall a b, isotope_eq a b = true <->
+     i_name a = i_name b /\ i_symbol a = i_symbol b /\ i_Z a = i_Z b /\ (i_weight a == i_weight b)%Q
+     /\ element_eq (i_element a) (i_element b) = true /\ i_A a = i_A b).
+Proof. split; [exact element_eq_iff | exact isotope_eq_iff]. Qed.
+Print Assumptions C19_eq_characterised_by_fields.
+
+(* dir(module): the order in which the builders see the objects is a sorted permutation of the namespace *)
+Theorem C19_dir_order_is_a_sorted_permutation :
+  forall en, Permutation (dir_sorted en) en /\ Sorted attr_le (dir_sorted en).
+Proof. intros en. split; [apply dir_sorted_perm | apply dir_sorted_sorted]. Qed.
+Print Assumptions C19_dir_order_is_a_sorted_permutation.
+
+(* species as keys of a dict WITH deletion (was tied by the correspondence only): a dict whose keys are
+   registry species, no key twice, is a finite map -- d.get(k) = v iff (k, v) is an entry; pop removes k and
+   nothing else; assignments and pops keep the dict in this form (so every history does) *)
+Theorem C19_species_dict_with_deletion_is_a_finite_map :
+  forall r, wf r = true ->
+  forall (khash : species -> Z) (ksame : species -> species -> bool),
+  (forall a, ksame a a = true) -> (forall a b, ksame a b = true -> a = b) ->
+  forall V (d : list (species * V)) k,
+  dict_ok (fun o => In o (all_species r)) d -> In k (all_species r) ->
+  (forall v, dict_get khash ksame py_eq d k = Some v <-> In (k, v) d)
+  /\ dict_get khash ksame py_eq (dict_del khash ksame py_eq d k) k = None
+  /\ (forall k', In k' (all_species r) -> k <> k' ->
+      dict_get khash ksame py_eq (dict_del khash ksame py_eq d k) k' = dict_get khash ksame py_eq d k')
+  /\ dict_ok (fun o => In o (all_species r)) (dict_del khash ksame py_eq d k)
+  /\ (forall v, dict_ok (fun o => In o (all_species r)) (dict_set khash ksame py_eq d k v)).
+Proof. intros r W khash ksame H1 H2 V d k Hd Hk. apply (species_dict_map r W khash ksame H1 H2 V d k Hd Hk). Qed.
+Print Assumptions C19_species_dict_with_deletion_is_a_finite_map.
 
 (* non-vacuity: a two-element, three-isotope program that loads and is well-formed *)
 Local Open Scope string_scope.
